@@ -1108,18 +1108,70 @@ class SGen:
         self.feats |= {"for", "nested", "nested:depth3", "nested:conditional_assign_in_inner_loop", "literal:promoted", "loop:uses_iter"}
         return pre + [outer]
 
+    def gen_overwrite_after_branch(self, env):
+        """Template:  v = x * 1.0; w = x * 0.0
+                      if c1: v = x + 1.0; w = x + 2.0
+                      else:  v = x - 1.0; w = x - 2.0
+                      if c2: v = x * 3.0            # no else: on the fall-through path v keeps the value from the first statement
+                      u = v + w
+        v is re-assigned in control flow together with another live variable and then overwritten, without being read, by an else-less
+        `if`: whether the first statement still has to produce v is decided by the liveness of v across the fall-through of the second.
+        The thresholds are placed around the sample's sum so that every combination of paths occurs over the input tuples."""
+        fl = [n for n, v in env.items() if isinstance(v, np.ndarray) and v.dtype in (np.float32, np.float64) and n not in self.frozen
+              and not n.startswith("tmp") and 1 <= v.size <= 64]
+        fresh = [v for v in VARS if v not in env and v not in self.frozen]
+        if not fl or len(fresh) < 3:
+            return None
+        x = self.pick(fl)
+        v, w, u = fresh[0], fresh[1], fresh[2]
+        self.uses_op = True
+        sx = float(np.sum(env[x].astype(np.float64)))
+        if not np.isfinite(sx):
+            return None
+        t1 = float(np.float32(sx + self.pick([-1.0, 1.0, -1.0])))
+        t2 = float(np.float32(sx + self.pick([1.0, 1.0, -1.0])))  # (mostly false on the sample: the fall-through path)
+        red = lambda: Call("ReduceSum", [Var(x)], {"keepdims": 0})  # noqa: E731
+        first_is_loop = self.chance(3)
+        pre = [Assign([v], Bin("*", Var(x), Lit(1.0))), Assign([w], Bin("*", Var(x), Lit(0.0)))]
+        if first_is_loop:
+            first = For("i", Lit(self.pick([1, 2, 3])), [Assign([v], Bin("+", Var(v), Lit(1.0))), Assign([w], Bin("+", Var(w), Var(x)))])
+            if "i" in env or "i" in self.frozen:
+                return None
+        else:
+            first = If(Bin(">", red(), Lit(t1)), [Assign([v], Bin("+", Var(x), Lit(1.0))), Assign([w], Bin("+", Var(x), Lit(2.0)))],
+                       [Assign([v], Bin("-", Var(x), Lit(1.0))), Assign([w], Bin("-", Var(x), Lit(2.0)))])
+        second = If(Bin(">", red(), Lit(t2)), [Assign([v], Bin("*", Var(x), Lit(3.0)))], [])
+        last = Assign([u], Bin("+", Var(v), Var(w)))
+        stmts = pre + [first, second, last]
+        try:
+            it = self.interp()
+            with np.errstate(all="ignore"):
+                for st_ in stmts:
+                    it.stmt(st_, env)
+        except (InterpError, KeyError, ValueError, TypeError, IndexError):
+            return None
+        if not isinstance(env.get(u), np.ndarray) or not np.all(np.isfinite(env[u])):
+            return None
+        env.pop("i", None)
+        self.feats |= {"if", "if:then_only", "if:else_less_overwrite_after_branch", "literal:promoted"} | ({"for"} if first_is_loop else {"if:both_existing"})
+        return stmts
+
     def gen_compound(self, env, must_preserve=(), only_existing=False):
         """Generate a compound statement on a copy of env; commit only on success, and only names that Python AND the
         converter both keep in scope afterwards (pre-existing names, names assigned on every path)."""
         k = self.pick(["if", "if", "for", "while"])
         if self.depth == 0 and not only_existing and self.chance(1):
             k = "nest3"
+        elif self.depth == 0 and not only_existing and self.chance(1):
+            k = "ovw"
         saved = set(self.frozen)
         work = dict(env)
         feats_before = set(self.feats)
         try:
             if k == "nest3":
                 r = self.gen_nested_last_hit(work)
+            elif k == "ovw":
+                r = self.gen_overwrite_after_branch(work)
             elif k == "if":
                 r = self.gen_if(work, only_existing)
             elif k == "for":
@@ -1285,6 +1337,15 @@ def gen_helper(draw, idx, opset, dt=None, rank=None):
     return p
 
 
+def _NAN_SAFE(source):
+    """A NaN is only put into the inputs of programs whose operators treat it alike in onnxruntime, onnx.reference and numpy (arithmetic,
+    ReduceSum, ordering comparisons, control flow): Max/Min/Clip/Relu/ReduceMax/Mod/Cast/rounding/TopK kernels differ between the runtimes."""
+    import re
+
+    return not re.search(r"ReduceMax|ReduceMin|ReduceProd|\.Max\(|\.Min\(|Clip|Relu|TopK|ArgM|Sign|Round|Floor|Ceil|Cast|%|Mod\(|Pow|\*\*|Sqrt|Log|Exp|"
+                         r"Softmax|Where|Equal|==|!=|\.Sum\(|\.Mean\(|Erf|Tanh|Sigmoid|Softplus|Elu|Selu|Celu|Abs|CumSum|Trilu|PRelu|Hard|Gelu|Mish|Shrink", source)
+
+
 @dataclasses.dataclass
 class GenProgram:
     prog: Program
@@ -1298,7 +1359,7 @@ class GenProgram:
         out = []
         for (_, dt, _), s in zip(self.prog.params, self.sample_inputs):
             a = modelgen.make_array(int(rng.integers(0, 2**31 - 1)), DT[dt], s.shape, ["mixed", "edge", "smallint"][int(rng.integers(0, 3))])
-            if a.dtype.kind == "f" and a.size and (seed // 7) % 4 == 3:
+            if a.dtype.kind == "f" and a.size and ((seed // 7) % 4 == 3 or (getattr(self, "always_nan", False) and seed % 2 == 1)) and _NAN_SAFE(self.source):
                 a = a.copy()
                 a.flat[int(rng.integers(0, a.size))] = np.nan  # one input tuple in four carries a NaN in every floating-point tensor
             out.append(a)
@@ -1361,9 +1422,47 @@ def operator_programs(draw):
 
 
 @st.composite
+def nan_compare_programs(draw):
+    """`not (a < b)`, `a >= b`, ... on scalar sums of the floating-point parameter select a branch; only NaN-transparent operators are
+    used (arithmetic, ReduceSum, ordering comparisons), so that a NaN in the input means the same in every runtime and in numpy:
+    every ordering comparison with NaN is False, hence `not (nan < y)` is True although `nan >= y` is False."""
+    g = SGen(draw, allow_helpers=False, allow_attrs=False, max_params=1)
+    dt = g.pick(["FLOAT", "FLOAT", "DOUBLE"])
+    g.force_first = (dt, g.pick([1, 1, 2]))
+    g.make_params()
+    x = g.params[0][0]
+    sample = [g.env[x].copy()]
+    g.uses_op = True
+    red = Call("ReduceSum", [Var(x)], {"keepdims": 0})
+    body, rets = [], []
+    for i in range(draw(st.integers(1, 3))):
+        cmp_ = Bin(g.pick(["<", ">", "<=", ">="]), red, Lit(g.pick([0.0, 1.0, -2.0, 100.0])))
+        if g.chance(6):
+            cmp_ = Un("not", cmp_)
+        t = f"r{i}"
+        stmt = If(cmp_, [Assign([t], Bin("+", Var(x), Lit(1.0)))], [Assign([t], Bin("-", Var(x), Lit(1.0)))])
+        try:
+            g.interp().stmt(stmt, g.env)
+        except Exception:  # noqa: BLE001
+            continue
+        body.append(stmt)
+        rets.append(t)
+    if not body:
+        body = [Assign(["r"], Call("Identity", [Var(x)], {}))]
+        g.env["r"] = g.env[x]
+        rets = ["r"]
+    g.feats.update({"literal:promoted", "if", "if:both_new", "nan_compare", "cond:not_of_comparison"})
+    ret_types = [(NAME_OF[g.env[n].dtype], g.env[n].ndim) for n in rets]
+    p = Program(g.name, g.params, g.attrs, body, [Var(n) for n in rets], ret_types, g.opset, [], needs_default_opset=False)
+    gp = GenProgram(p, program_src(p), sample, {}, sorted(g.feats))
+    gp.always_nan = True
+    return gp
+
+
+@st.composite
 def programs(draw, max_stmts=7, main_attrs=True, multicall_one_in=6, operator_matrix_one_in=0):
     if operator_matrix_one_in and draw(st.integers(0, operator_matrix_one_in - 1)) == 0:
-        return draw(operator_programs())
+        return draw(operator_programs()) if draw(st.integers(0, 3)) else draw(nan_compare_programs())
     g = SGen(draw, allow_attrs=main_attrs)
     multicall = draw(st.integers(0, multicall_one_in - 1)) == 0
     if multicall:
